@@ -1,4 +1,5 @@
 import H2.Proofs.Closing
+import H2.Proofs.ClosingRace
 /-!
 # C10 — the server's GOAWAY tells the truth; connection errors end the connection
 
@@ -154,10 +155,36 @@ theorem conn_error_codes_witness : ¬ conn_error_codes_full := by
 theorem unnamed_goaway_stops (o : Offence) (h : namesStream o = false) : modeOf o = .stop := by
   cases o <;> first | rfl | (exact absurd h (by decide))
 
-/-! ### what the serial model hides: a GOAWAY written from another goroutine -/
+/-! ### what the serial model hides: a GOAWAY written from another goroutine
+
+`writeGoAway` is also called by the read loop and by the idle timer. Before the repair of F64 it read `lastID`, queued
+the frame and marked the connection closed without any ordering against the stream loop, which read the state at the
+top of its iteration and advanced `lastID` later. The two witnesses below are runs of a model of THAT protocol
+(`Race`); the forced interleaving was replayed on the real code (harness op `racega`, findings/F64-C10-before-fix.txt).
+The repaired protocol (`Locked`: `goAwayMu` held by the writer from the load to the closed flag, and by the stream loop
+around "closing? / lastID := id") is proved correct for every interleaving of any number of writers. -/
+
+open Locked in
+/-- **GOAWAY truth under every interleaving** (the protocol as repaired): whatever the order in which the stream loop
+and any number of outside writers (read loop, idle timer) take their steps, every GOAWAY's last-stream-id is at least
+every stream dispatched before it and nothing is dispatched after a GOAWAY -/
+theorem goaway_truth_all_interleavings (acts : List Locked.Act) : Locked.Truth (Locked.lrun {} acts).trace :=
+  Locked.run_truth acts
+
+open Locked in
+/-- non-vacuity: the interleaving of the witness below, on the repaired protocol: the timer takes the lock and loads
+`lastID` = 0, the HEADERS of stream 1 has to wait, the GOAWAY goes out, the flag is set, the lock is released, and the
+stream is refused -/
+example : (Locked.lrun {} [.w 0 0, .w 0 0, .slHeaders 1, .w 0 0, .w 0 0, .w 0 0, .slHeaders 1]).trace =
+    [.goAway 0 NO_ERROR, .refused 1] := by decide
 
 open Race in
-/-- **race witness (GOAWAY truth)**: the idle timer (or the read loop) loads `lastID` = 0; the stream loop
+/-- the same predicate fails on the unlocked protocol's run -/
+theorem unlocked_protocol_breaks_truth :
+    ¬ Locked.Truth (rrun {} [.load, .slHeaders 1, .send, .setClosing]).trace := by decide
+
+open Race in
+/-- **race witness (GOAWAY truth), protocol before the repair**: the idle timer (or the read loop) loads `lastID` = 0; the stream loop
 opens and dispatches stream 1; the timer writes GOAWAY(last = 0). A request is being processed on a
 stream the GOAWAY told the client it may replay. -/
 theorem goaway_truth_race_witness :
@@ -166,7 +193,7 @@ theorem goaway_truth_race_witness :
   decide
 
 open Race in
-/-- **race witness (no new stream after GOAWAY)**: the closing flag is stored after the frame is queued, so
+/-- **race witness (no new stream after GOAWAY), protocol before the repair**: the closing flag is stored after the frame is queued, so
 a stream can be opened and dispatched after the GOAWAY went out, even if the GOAWAY itself was right when
 written. -/
 theorem no_new_stream_race_witness :
